@@ -16,20 +16,23 @@ Definition model (c : case) : list nat :=
   end.
 (* the statement of the property on the observation level *)
 Definition olt (a b : option Z) := match a, b with Some x, Some y => (x <? y)%Z | _, _ => false end.
-Definition spec_at (c : case) (n : nat) : nat :=
-  let x k := nth k (cxs c) None in
+(* the statement of the property on the observation level, as list functions (linear time, so that soak runs
+   of tens of thousands of samples can be checked in full) *)
+Definition slope_idx (a b : option Z) : nat := if olt a b then 0 else if olt b a then 2 else 1.
+Fixpoint map2 {A B} (f : A -> A -> B) (l1 l2 : list A) : list B :=
+  match l1, l2 with a :: r1, b :: r2 => f a b :: map2 f r1 r2 | _, _ => [] end.
+Fixpoint map3 {A B} (f : A -> A -> A -> B) (l1 l2 l3 : list A) : list B :=
+  match l1, l2, l3 with a :: r1, b :: r2, c :: r3 => f a b c :: map3 f r1 r2 r3 | _, _, _ => [] end.
+Definition spec_list (c : case) : list nat :=
+  let xs := cxs c in
   match ckind c with
-  | 0%nat => match n with O => 1 | S m => if olt (x m) (x n) then 0 else if olt (x n) (x m) then 2 else 1 end
-  | 1%nat => match n with
-             | S (S m) => if olt (x m) (x (S m)) && olt (x n) (x (S m)) then 0
-                          else if olt (x (S m)) (x m) && olt (x (S m)) (x n) then 2 else 1
-             | _ => 1 end
-  | _ => match n with
-         | S m => match to_slope (x m), to_slope (x n) with Rising, Falling => 0 | Falling, Rising => 2 | _, _ => 1 end
-         | O => 1 end
+  | 0%nat => match xs with [] => [] | _ => 1%nat :: map2 slope_idx xs (tl xs) end
+  | 1%nat => firstn (length xs) ([1; 1]%nat ++
+               map3 (fun a b d => if olt a b && olt d b then 0%nat else if olt b a && olt b d then 2%nat else 1%nat) xs (tl xs) (tl (tl xs)))
+  | _ => match xs with [] => [] | _ =>
+           1%nat :: map2 (fun a b => match to_slope a, to_slope b with Rising, Falling => 0%nat | Falling, Rising => 2%nat | _, _ => 1%nat end) xs (tl xs) end
   end.
 Definition check (c : case) : verdict :=
   let out_ok := negb (cpanic c) && list_eqb Nat.eqb (model c) (cys c) in
-  let spec_ok := negb (cpanic c) && (length (cxs c) =? length (cys c))%nat &&
-                 forallb (fun n => Nat.eqb (nth n (cys c) 9%nat) (spec_at c n)) (seq 0 (length (cxs c))) in
+  let spec_ok := negb (cpanic c) && list_eqb Nat.eqb (spec_list c) (cys c) in
   mkv out_ok spec_ok (existsb (Nat.eqb 0) (cys c) && existsb (Nat.eqb 2) (cys c)).
